@@ -134,6 +134,9 @@ def body(c, stats: Stats, harness_queue=None):
         delta = {k: gens.build_repo(v) for k, v in c['delta']}
         ep = gens.expand_sugared(c['p'], defs)
         ed = {k: gens.expand_sugared(v, defs) for k, v in c['delta']}
+        if not gens.admissible_delta(ep, ed):
+            stats.excluded['py-inst-inadmissible-delta'] += 1   # constraint-respecting maps only (DESIGN 2.3)
+            return
         exp = R.instantiate(ep, ed)
         got = p.instantiate(delta)
         got_e = R.from_repo(got)
